@@ -308,3 +308,54 @@ Example c05_gen_example :
   /\ gen_slice_to_list (Some (-2)%Z, None, Some (-1)%Z) (py_int 3) = PyOk [1; 0]%Z.
 Proof. vm_compute. repeat split; reflexivity. Qed.
 Print Assumptions c05_gen_example.
+
+(* paired fancy indices are paired by broadcasting, as NumPy pairs index arrays (repaired _convert_from_2d:
+   np.broadcast_arrays): a one-entry column vector a[[r0,..],[c]] reads what the scalar column a[[r0,..], c]
+   reads, a one-entry row vector a[[r],[c0,..]] what a[r, [c0,..]] reads -- on the ragged array and on the list of
+   rows alike; c05_pairs above covers every pair of lengths (other unequal lengths raise on both sides) *)
+Theorem c05_pairs_broadcast_col : forall A (s : conc A) rs c,
+  get_c s (Pairs rs [c]) = get_c s (PairsScalar rs c).
+Proof. exact @get_pairs_broadcast_col. Qed.
+Print Assumptions c05_pairs_broadcast_col.
+
+Theorem c05_pairs_broadcast_row : forall A (s : conc A) r cs,
+  get_c s (Pairs [r] cs) = get_c s (ElemList r cs).
+Proof. exact @get_pairs_broadcast_row. Qed.
+Print Assumptions c05_pairs_broadcast_row.
+
+Theorem c05_rows_pairs_broadcast_col : forall A (rows : list (list A)) rs c,
+  get_s rows (Pairs rs [c]) = get_s rows (PairsScalar rs c).
+Proof. exact @get_s_pairs_broadcast_col. Qed.
+Print Assumptions c05_rows_pairs_broadcast_col.
+
+Theorem c05_rows_pairs_broadcast_row : forall A (rows : list (list A)) r cs,
+  get_s rows (Pairs [r] cs) = get_s rows (ElemList r cs).
+Proof. exact @get_s_pairs_broadcast_row. Qed.
+Print Assumptions c05_rows_pairs_broadcast_row.
+
+Theorem c05_pairs_broadcast_length : forall (rs cs : list Z) ps,
+  rs <> [] -> cs <> [] -> bpairs rs cs = Some ps -> length ps = Nat.max (length rs) (length cs).
+Proof. exact bpairs_length. Qed.
+Print Assumptions c05_pairs_broadcast_length.
+
+Theorem c05_pairs_unequal_lengths_raise : forall A (s : conc A) (rs cs : list Z),
+  length rs <> length cs -> length rs <> 1%nat -> length cs <> 1%nat ->
+  get_c s (Pairs rs cs) = Err /\ get_s (abs s) (Pairs rs cs) = Err.
+Proof. exact @get_pairs_unequal_raise. Qed.
+Print Assumptions c05_pairs_unequal_lengths_raise.
+
+(* the reported input: a[[0,1,2],[4]] on three rows of six reads 3 values (it used to read a 3x3 matrix) *)
+Example c05_broadcast_example :
+  let s := mkRA [0; 1; 2; 3; 4; 5; 10; 11; 12; 13; 14; 15; 20; 21; 22; 23; 24; 25]%Z [6; 6; 6]%nat in
+  get_c s (Pairs [0; 1; 2]%Z [4]%Z) = Flat [4; 14; 24]%Z
+  /\ get_g s (Pairs [0; 1; 2]%Z [-1]%Z) = Flat [5; 15; 25]%Z
+  /\ get_g s (Pairs [-1]%Z [0; 2; -4]%Z) = Flat [20; 22; 22]%Z
+  /\ get_c s (Pairs [0; 1]%Z [1; 2; 3]%Z) = Err.
+Proof. vm_compute. repeat split; reflexivity. Qed.
+Print Assumptions c05_broadcast_example.
+
+(* the pairing of the two index vectors as regenerated from _convert_from_2d (np.broadcast_arrays; Gen/RaGen.v)
+   is the model's pairing, so c05_gen_reads covers broadcast pairs read through the generated definitions *)
+Theorem c05_gen_pairs_are_broadcast : forall rs cs : list Z, gen_c2_pairs rs cs = bpairs rs cs.
+Proof. exact gen_c2_pairs_spec. Qed.
+Print Assumptions c05_gen_pairs_are_broadcast.
